@@ -5,7 +5,7 @@
    `max utility = brute-force optimum, with or without the pruning passes` is NOT proved. *)
 From Coq Require Import ZArith Bool List.
 Import ListNotations.
-From Verif Require Import Model.Val Model.Strl Proofs.StrlP Proofs.StrlP2 Proofs.StrlP3 Proofs.StrlP4 Proofs.StrlP5 Proofs.StrlP6.
+From Verif Require Import Model.Val Model.Strl Proofs.StrlP Proofs.StrlP2 Proofs.StrlP3 Proofs.StrlP4 Proofs.StrlP5 Proofs.StrlP6 Proofs.StrlP7.
 Open Scope Z_scope.
 
 (* capacity: for every tree whose leaf start times are congruent modulo the granularity, every
@@ -135,6 +135,12 @@ Print Assumptions C20_monitor_exact.
 Theorem C20_monitor_capacity : forall pt e pls, capacity_okb pt e pls = true <-> capacity_at_starts pt e pls.
 Proof. exact capacity_okb_iff. Qed.
 Print Assumptions C20_monitor_capacity.
+(* although it looks at the start times only, the capacity monitor decides capacity at EVERY time *)
+Theorem C20_monitor_capacity_all_times : forall pt e pls,
+  amounts_nonneg e pls -> capacity_okb pt e pls = true ->
+  forall p q av, In (p, q, av) pt -> 0 <= q -> forall tau, usage pls p tau + alloc_usage e p tau <= q.
+Proof. exact capacity_monitor_all_times. Qed.
+Print Assumptions C20_monitor_capacity_all_times.
 Theorem C20_monitor_max : forall e pls, max_okb e pls = true <-> max_ok e pls.
 Proof. exact max_okb_iff. Qed.
 Print Assumptions C20_monitor_max.
